@@ -18,14 +18,14 @@ ID = "C10"
 CASES = {"quick": 2400, "thorough": 30000}
 FLOOR = {"quick": 1800, "thorough": 22000}
 FLOOR_COUNTERS = {
-    "quick": {"alphas_judged": 9000, "fold_captures": 1800, "rank_deficient_fits": 350, "r2_fits": 400, "explicit_cv_fits": 400, "n_jobs_2_fits": 10, "one_dimensional_targets": 200},
-    "thorough": {"alphas_judged": 110000, "fold_captures": 22000, "rank_deficient_fits": 4000, "r2_fits": 5000, "explicit_cv_fits": 5000, "n_jobs_2_fits": 100, "one_dimensional_targets": 2500},
+    "quick": {"alphas_judged": 9000, "fold_captures": 1800, "rank_deficient_fits": 350, "r2_fits": 400, "explicit_cv_fits": 400, "n_jobs_2_fits": 10, "one_dimensional_targets": 200, "estimators_with_a_past": 700},
+    "thorough": {"alphas_judged": 110000, "fold_captures": 22000, "rank_deficient_fits": 4000, "r2_fits": 5000, "explicit_cv_fits": 5000, "n_jobs_2_fits": 100, "one_dimensional_targets": 2500, "estimators_with_a_past": 9000},
 }
 RULE = (
     "case = X (tall / wide / exactly rank-deficient through duplicated or combined columns / column-scaled; largest "
     "singular value 1e-2..1e3), 1-3 noisy targets, alpha grid (absolute 1e-12..1e3 or relative in [0,1) incl. 0), method "
     "tikhonov|cutoff, scorer neg-MSE|neg-RMSE|r2, cv None(+shuffle,+seed) | explicit (train,test) pairs incl. unequal sizes | "
-    "KFold objects, n_jobs None|2. non-trivial = >= 3 alphas judged with distinct oracle scores; distinct by data+config hash."
+    "KFold objects, n_jobs None|2; 40% of the estimators have a past (fitted on other data with every hyper-parameter different, then set_params). non-trivial = >= 3 alphas judged with distinct oracle scores; distinct by data+config hash."
 )
 ASSUMPTIONS = [
     "singular values of X and of each fold are either >= 1e-6 x sigma_1 or rounding noise (generator), so the numerical rank is unambiguous",
@@ -96,6 +96,8 @@ def gen(rng, tier, index):
         "scoring": gens.pick(rng, SCORERS),
         "cv": cv,
         "n_jobs": 2 if rng.random() < 0.012 else None,
+        "past": bool(rng.random() < 0.4),  # the estimator object has been fitted before, with another configuration
+        "pseed": int(rng.integers(1 << 30)),
         "Z": rng.normal(size=(5, m)) * float(np.abs(X).std()),
     }
 
@@ -167,7 +169,34 @@ def run(case, j):
         j.note("one_dimensional_targets")
     j.tag(f"X:{case['shape']}", f"alpha:{atype}", f"method:{method}", f"scoring:{scoring}", f"cv:{case['cv']['kind']}", f"n_jobs:{case['n_jobs']}")
     cv_arg, kw, cv_ref = _cv_object(case["cv"], n)
-    est = Ridge2FoldCV(alphas=alphas.copy(), alpha_type=atype, regularization_method=method, scoring=scoring, cv=cv_arg, n_jobs=case["n_jobs"], **kw)
+    params = dict(alphas=alphas.copy(), alpha_type=atype, regularization_method=method, scoring=scoring, cv=cv_arg, n_jobs=case["n_jobs"])
+    params.update({"shuffle": True, "random_state": None})  # constructor defaults
+    params.update(kw)
+    if case.get("past"):
+        # an estimator with a past: fitted with every hyper-parameter different and on other data, then re-configured
+        # through set_params; nothing of the first life may show in the second
+        pr = np.random.default_rng(case["pseed"])
+        other = [s_ for s_ in SCORERS if s_ != scoring]
+        m0 = int(pr.integers(1, 12))
+        n0 = int(pr.integers(6, 40))
+        p0 = int(pr.integers(1, 4))
+        X0 = pr.normal(size=(n0, m0)) * 10.0 ** pr.uniform(-2, 2)
+        Y0 = pr.normal(size=(n0, p0)) if pr.random() < 0.7 else pr.normal(size=n0)
+        est = Ridge2FoldCV(
+            alphas=np.sort(10.0 ** pr.uniform(-6, -0.5, size=int(pr.integers(1, 9)))),
+            alpha_type="relative" if atype == "absolute" else "absolute",
+            regularization_method="cutoff" if method == "tikhonov" else "tikhonov",
+            scoring=other[int(pr.integers(len(other)))],
+            cv=None if pr.random() < 0.5 else int(pr.integers(2, 4)),
+            **({"shuffle": True, "random_state": int(pr.integers(100))} if pr.random() < 0.5 else {"shuffle": False, "random_state": None}),
+        )
+        j.lib("fit:decoy", est.fit, X0, Y0)
+        j.lib("predict:decoy", est.predict, X0)
+        j.lib("set_params", est.set_params, **params)
+        j.note("estimators_with_a_past")
+        j.tag("history:refit-after-set_params")
+    else:
+        est = Ridge2FoldCV(**params)
     seen = {}
 
     def pre(self, a, k):
